@@ -46,21 +46,31 @@ def plan(tier: str, seed: int):
     return list(range(len(alphabet(tier))))
 
 
-def build_engine():
+IMPLICATION = "AlgebraicProduct"  # what every harness engine is given as its implication operator
+
+
+def build_engine(configured: bool = False):
+    """configured=True: the operators are installed afterwards through Engine.configure (by name)."""
     def out(name, enabled=True):
         return fl.OutputVariable(
             name, enabled=enabled, minimum=0.0, maximum=1.0,
             terms=[fl.Triangle("x", 0.0, 0.25, 0.5), fl.Triangle("y", 0.5, 0.75, 1.0)],
         )
 
-    block = fl.RuleBlock("rb", conjunction=fl.Minimum(), disjunction=fl.Maximum(), implication=fl.AlgebraicProduct(),
-                         activation=fl.General())
+    if configured:
+        block = fl.RuleBlock("rb")
+    else:
+        block = fl.RuleBlock("rb", conjunction=fl.Minimum(), disjunction=fl.Maximum(), implication=fl.AlgebraicProduct(),
+                             activation=fl.General())
     engine = fl.Engine(
         "e",
         input_variables=[fl.InputVariable("i", minimum=0.0, maximum=1.0, terms=[fl.Ramp("a", 0.0, 1.0)])],
         output_variables=[out("o1"), out("o2"), out("o3", enabled=False)],
         rule_blocks=[block],
     )
+    if configured:
+        engine.configure(conjunction="Minimum", disjunction="Maximum", implication=IMPLICATION, aggregation="Maximum",
+                         defuzzifier="Centroid", activation="General")
     return engine, block
 
 
@@ -114,8 +124,8 @@ def compare(acc, case, obs, exps, implication, n_rows, leaks=None):
                         f"fuzzy output of {var} has terms {[g[0] for g in got]}, expected {[w[0] for w in want0]}")
             continue
         for k, (tname, degree, impl) in enumerate(got):
-            if impl is not implication:
-                acc.violate("implication", {}, case, repr(implication), repr(impl), f"{var}[{k}] carries the wrong implication")
+            if impl is not implication or type(impl).__name__ != IMPLICATION:
+                acc.violate("implication", {}, case, IMPLICATION, repr(impl), f"{var}[{k}] carries the wrong implication")
             d = np.atleast_1d(np.asarray(degree, dtype=float))
             if d.shape != (n_rows,):
                 acc.violate("degree-shape", {}, case, n_rows, list(d.shape), f"{var}[{k}] degree has shape {d.shape}")
@@ -128,6 +138,9 @@ def compare(acc, case, obs, exps, implication, n_rows, leaks=None):
                 acc.violate("degree", {"cause": cause}, case,
                             {var: wants}, {var: d.tolist()},
                             f"{var} activation #{k} ({tname}) has degree {d.tolist()}, expected {wants}")
+
+
+REUSED: dict = {}
 
 
 def run_rule(acc: Acc, engine, block, conclusions, tier: str, via_block: bool) -> None:
@@ -206,7 +219,10 @@ def run_rule(acc: Acc, engine, block, conclusions, tier: str, via_block: bool) -
                     len(rows), leaks)
         acc.traces += 1
     # --- driver 3: every activation method, one selected rule: the term carries the block's IMPLICATION operator ------
-    r1 = fl.Rule.create(text, engine)
+    # (the rule object is long-lived: it held `... with 0.250` before and is re-parsed in place with this unweighted text)
+    r1 = REUSED.setdefault(id(engine), fl.Rule.create("if i is a then o1 is x with 0.250", engine))
+    r1.parse(text)
+    r1.load(engine)
     block.rules = [r1]
     engine.input_variables[0].value = fl.scalar(0.5)
     methods = [fl.First(1, 0.0), fl.Last(1, 0.0), fl.Highest(1), fl.Lowest(1), fl.Threshold(">", 0.0), fl.Proportional(), fl.General()]
@@ -220,6 +236,27 @@ def run_rule(acc: Acc, engine, block, conclusions, tier: str, via_block: bool) -
         acc.case((text, type(method).__name__), nontrivial=nontrivial)
         compare(acc, {**case0, "driver": "activate-method", "method": type(method).__name__, "input": 0.5}, observe(engine),
                 [expected(conclusions, d1, True)], impl, 1, [expected_leak(conclusions, d1, True)])
+    r1.parse("if i is a then o1 is x with 0.250")
+    r1.load(engine)
+    # --- driver 5: a copy of the engine (made while the block holds the rule) adds to ITS OWN outputs only ----------------
+    block.activation = fl.General()
+    block.rules = [fl.Rule.create(text, engine)]
+    twin = engine.copy()
+    block.rules[0].unload()  # the copy must not depend on the original's rule
+    for e in (engine, twin):
+        for ov in e.output_variables:
+            ov.fuzzy.clear()
+    twin.input_variables[0].value = fl.scalar(0.5)
+    engine.input_variables[0].value = fl.scalar(1.0)
+    twin.rule_blocks[0].activate()
+    acc.transitions += 1
+    compare(acc, {**case0, "driver": "copy", "input": 0.5}, observe(twin), [expected(conclusions, 0.5, True)], twin.rule_blocks[0].implication, 1,
+            [expected_leak(conclusions, 0.5, True)])
+    leaked = {v: [g[0] for g in got] for v, got in observe(engine).items() if got}
+    if leaked:
+        acc.violate("terms", {"variable": "original-of-copy"}, {**case0, "driver": "copy", "input": 0.5}, {}, leaked,
+                    f"activating the copy's rule block added terms {leaked} to the ORIGINAL engine's fuzzy outputs")
+    engine.input_variables[0].value = fl.scalar(0.5)
     # --- driver 4: a rule that was disabled while the block was loaded and is enabled afterwards contributes normally ----
     late = fl.Rule.create(text)
     late.enabled = False
@@ -241,7 +278,7 @@ def run_rule(acc: Acc, engine, block, conclusions, tier: str, via_block: bool) -
 
 def run_shard(tier: str, seed: int, shard: int):
     acc = Acc(ID)
-    engine, block = build_engine()
+    engine, block = build_engine(configured=(shard % 2 == 1))  # every other shard: operators installed through Engine.configure
     A = alphabet(tier)
     first = A[shard]
     # 1, 2 and 3 conclusions whose first conclusion is `first`
@@ -272,7 +309,9 @@ def summarize(tier: str, seed: int, merged: dict) -> dict:
             f"({len(chains(tier))} hedge chains of length <= 2 over 6 hedges; o3 disabled): {n}+{n}^2+{n}^3 rules, "
             f"each triggered with degrees {['0', '0.25', '0.5', '1', 'nan', 'inf', '-inf']}, a batch, and disabled; "
             "1- and 2-conclusion rules also through RuleBlock.activate with/without `with 0.5` next to a second rule, under each of the "
-            "7 activation methods (conjunction != implication), and loaded while disabled then enabled. "
+            "7 activation methods (conjunction != implication; the rule object re-parsed in place after holding a weighted rule), on a copy of "
+            "the engine (the original's outputs stay empty), and loaded while disabled then enabled; every other shard builds its engine "
+            "through Engine.configure. "
             "states = (rule, degree) configurations executed, transitions = trigger/activate calls, traces = reference "
             "runs compared; non-trivial = >= 2 conclusions, at least one hedge, degree strictly inside (0,1) or a batch"
         ),
